@@ -1058,7 +1058,7 @@ def check_records(ck: Check, cfg, res, found, label):
         n_rand = sum(1 for e in r["events"] if e[0] == "rand")
         own_rand = 1 if kind in ("scaler", "window") else 0
         used_u = n_rand > own_rand
-        degenerate = math.isinf(r["hr"])
+        degenerate = not math.isfinite(r["hr"])
         lp = r.get("lp_proposed")
         if not degenerate and abs(r["hr"]) > 100:
             ck.bucket("oracle/branch/large-finite-hastings" + ("/accepted" if r["accepted"] else "/rejected"))
@@ -1507,8 +1507,9 @@ def gen_cfg(rng, family, adapt, iterations):
         n = rng.randint(1, 2)
         t = {"kind": "normal", "loc": [0.0] * n, "scale": [1.0] * n, "init": [[rng.uniform(-1, 1) for _ in range(n)]]}
         sent = sorted({{"posInf": "inf", "negInf": "-inf", "nan": "nan"}[x] for _c, v in tr_runorder.operator_failure_returns() for x in v})
+        sent = sorted(set(sent) | {"inf", "-inf", "nan"})  # every non-finite value means "no proposal" (accept rule)
         ops = [op("window", [0], rng.uniform(0.3, 1.5)), {"kind": "stub", "pidx": [0], "weight": 1.0, "target": 0.24, "scale": 1.0,
-                                                           "adapt": False, "sentinels": sent or ["inf"]},
+                                                           "adapt": False, "sentinels": sent},
                op("scaler", [0], rng.uniform(0.4, 0.9))]
         exact = False
     elif family == "hmc_adapt":
